@@ -334,6 +334,7 @@ class Verifier:
             return
         rep.outcomes[outcome[0]] = rep.outcomes.get(outcome[0], 0) + 1
         if c.ghost and outcome[0] == 'return':
+            eng.ret_value = outcome[1]      # ghost updates may depend on the decision returned
             c.ghost(eng, names)
         self.check_outcome(eng, fi, c, names, old, outcome, frm)
 
